@@ -17,6 +17,7 @@
 package main
 
 import (
+	"encoding/json"
 	"flag"
 	"fmt"
 	"go/ast"
@@ -867,8 +868,12 @@ func run(repo, out string) error {
 	}
 	info := &types.Info{Types: map[ast.Expr]types.TypeAndValue{}, Defs: map[*ast.Ident]types.Object{}, Uses: map[*ast.Ident]types.Object{}}
 	conf := types.Config{Importer: importer.ForCompiler(fset, "source", nil), Sizes: types.SizesFor("gc", "amd64")}
-	if _, err := conf.Check(pkgPath, fset, files, info); err != nil {
+	pkg, err := conf.Check(pkgPath, fset, files, info)
+	if err != nil {
 		return fmt.Errorf("type check: %v", err)
+	}
+	if err := clientConstructors(pkg, filepath.Join(filepath.Dir(out), "constructors.json")); err != nil {
+		return err
 	}
 	decls := map[string]*ast.FuncDecl{}
 	for _, f := range files {
@@ -914,6 +919,64 @@ func run(repo, out string) error {
 		}
 	}
 	fmt.Printf("retrypolicy2coq: %s (%d functions, 1 rule table)\n", out, len(targets))
+	return nil
+}
+
+// clientConstructors enumerates the public client constructors of utils/http: every exported function that returns an
+// IRetryableClient, and every exported function returning an IClient that is handed a configuration containing a retry
+// policy.  The list (name, signature, whether a configuration is accepted) is written as JSON for the harness, which
+// must drive every one of them end to end and fails closed on an entry it has no driver for.
+func clientConstructors(pkg *types.Package, out string) error {
+	isNamedHere := func(t types.Type, names ...string) bool {
+		if p, ok := t.(*types.Pointer); ok {
+			t = p.Elem()
+		}
+		t = types.Unalias(t)
+		n, ok := t.(*types.Named)
+		if !ok {
+			return false
+		}
+		for _, x := range names {
+			if n.Obj().Name() == x && n.Obj().Pkg() != nil && (n.Obj().Pkg() == pkg || strings.HasSuffix(n.Obj().Pkg().Path(), "/utils/retry")) {
+				return true
+			}
+		}
+		return false
+	}
+	type entry struct {
+		Name          string `json:"name"`
+		Sig           string `json:"sig"`
+		AcceptsConfig bool   `json:"accepts_config"`
+		Retryable     bool   `json:"retryable"`
+	}
+	var es []entry
+	for _, n := range pkg.Scope().Names() {
+		fn, ok := pkg.Scope().Lookup(n).(*types.Func)
+		if !ok || !fn.Exported() {
+			continue
+		}
+		sig := fn.Type().(*types.Signature)
+		retryable, client := false, false
+		for i := 0; i < sig.Results().Len(); i++ {
+			retryable = retryable || isNamedHere(sig.Results().At(i).Type(), "IRetryableClient", "RetryableClient")
+			client = client || isNamedHere(sig.Results().At(i).Type(), "IClient", "GenericClient", "PooledClient")
+		}
+		accepts := false
+		for i := 0; i < sig.Params().Len(); i++ {
+			accepts = accepts || isNamedHere(sig.Params().At(i).Type(), "HTTPClientConfiguration", "RequestConfiguration", "RetryPolicyConfiguration")
+		}
+		if retryable || (client && accepts) {
+			es = append(es, entry{n, types.TypeString(sig, types.RelativeTo(pkg)), accepts, retryable})
+		}
+	}
+	if len(es) == 0 {
+		return fmt.Errorf("no client constructor found in %s", pkg.Path())
+	}
+	bs, _ := json.MarshalIndent(es, "", " ")
+	bs = append(bs, '\n')
+	if old, _ := os.ReadFile(out); string(old) != string(bs) {
+		return os.WriteFile(out, bs, 0o644)
+	}
 	return nil
 }
 
@@ -1036,6 +1099,7 @@ func main() {
 		fmt.Fprintln(os.Stderr, "retrypolicy2coq: ERROR:", err)
 		// fail closed: leave a Gen.v that cannot be compiled, so that no stale model is checked
 		msg := strings.ReplaceAll(err.Error(), "*)", "* )")
+		_ = os.WriteFile(filepath.Join(filepath.Dir(*out), "constructors.json"), []byte("[]\n"), 0o644)
 		_ = os.WriteFile(*out, []byte("(* retrypolicy2coq FAILED: "+msg+" *)\nDefinition translator_failed : False := I.\n"), 0o644)
 		os.Exit(1)
 	}
